@@ -8,6 +8,7 @@ import Driver.Helpers
 import Driver.Sem
 import Driver.Types
 import Driver.Adds
+import Driver.Roundtrip
 open Driver
 
 def step (line : String) : List String :=
@@ -22,6 +23,7 @@ def step (line : String) : List String :=
   | "sem" :: rest => runSem rest
   | "types" :: rest => runTypes rest
   | "adds" :: rest => runAdds rest
+  | "roundtrip" :: rest => runRoundtrip rest
   | [] => []
   | f :: _ => [s!"{f} ? unknown-family"]
 
